@@ -162,6 +162,28 @@ func runC03Sources(res *Result, r *Rng) {
 	path := filepath.Join(dir, "src", "app", "main.go")
 	os.WriteFile(path, []byte(src.String()), 0o644)
 	opts := &stack.Opts{LocalGOPATHs: []string{dir}, NameArguments: true, GuessPaths: true, AnalyzeSources: true}
+	// files that end without a newline, with a frame on every line up to and beyond the last one
+	for v, tail := range []string{"func last(a int) {\n\tpanic(a)\n}", "func last(a int) { panic(a) }", "func last(a int) {\n\tpanic(a)\n}\n// no newline after this comment", "var x = 1"} {
+		p2 := filepath.Join(dir, "src", "app", fmt.Sprintf("tail%d.go", v))
+		text := "package main\n\nfunc first(s string) {\n\tpanic(s)\n}\n\n" + tail
+		os.WriteFile(p2, []byte(text), 0o644)
+		nl := strings.Count(text, "\n") + 1
+		for l := 0; l <= nl+2; l++ {
+			dump := fmt.Sprintf("goroutine 1 [running]:\nmain.last(0x5)\n\t%s:%d +0x1d\nmain.first({0xc000012345, 0x3})\n\t%s:4 +0x2\n\n", p2, l, p2)
+			var s *stack.Snapshot
+			if p := catch(func() { s, _, _ = stack.ScanSnapshot(strings.NewReader(dump), io.Discard, opts) }); p != nil {
+				res.Violation(Finding{Stream: "sources", What: fmt.Sprintf("ScanSnapshot with the sources on disk panicked on a frame at line %d of a %d-line file that ends without a newline: %v", l, nl, p), Op: map[string]interface{}{"dump": dump, "source": text}})
+				return
+			}
+			res.Count("source-last-lines")
+			if s != nil {
+				if what, p := renderAll(s); p != nil {
+					res.Violation(Finding{Stream: "sources", What: fmt.Sprintf("%s panicked on a snapshot augmented from sources: %v", what, p), Op: map[string]interface{}{"dump": dump}})
+					return
+				}
+			}
+		}
+	}
 	for _, f := range fns {
 		total := 0
 		for _, w := range f.shape {
